@@ -22,7 +22,8 @@
   `isFinalReply`        — RESULT whose details do not have `progress: true`, or ERROR(CALL);
   `repliesFor c sends`, `finalsFor c sends`, `progsFor c sends` — the replies / final / progressive
                           replies to `c` among the messages a step sends (in order);
-  `IsCallStep s o c`    — the step is `syncCall` for the CALL message (first or later chunk) with id `c`.
+  `IsCallStep s o c`    — the step is `syncCall` for the CALL message (first or later chunk) with id `c`;
+  `Run s tr s'`         — a sequence of consecutive steps from `s` to `s'`; `tr` lists (state before, output).
 
   clause                                                            theorem
   ----------------------------------------------------------------  -----------------------------------
@@ -90,12 +91,6 @@ theorem C02_at_most_one_final {s : DState} {o : DOut} (h : DealerInv s) (st : DS
   have hr := st.replyOK h c
   refine ⟨hr.one, fun hf => ⟨hr.known ?_, hr.final hf⟩⟩
   intro he; apply hf; simp [finalsFor, he]
-
-/-- A run of the dealer: consecutive steps, each recorded with the state it starts in. -/
-inductive Run : DState → List (DState × DOut) → DState → Prop
-  | nil (s : DState) : Run s [] s
-  | cons {s : DState} {o : DOut} {tr : List (DState × DOut)} {s' : DState} :
-      DStep s o → Run o.st tr s' → Run s ((s, o) :: tr) s'
 
 /-- Once `c` is not pending (in particular right after its final reply, `C02_final_removes_call`),
     nothing more is sent for that request, whatever callers, callees and bystanders do, until the
